@@ -116,6 +116,7 @@ CONFIG = {
         "streams": [
             {"name": "c07o", "n": {"quick": 6000, "thorough": 120000}, "trivial": lambda case, ans: False},
             {"name": "c16m", "n": {"quick": 3000, "thorough": 60000}, "trivial": lambda case, ans: False},
+            {"name": "c07m", "n": {"quick": 8000, "thorough": 160000}, "trivial": lambda case, ans: False},
             {"name": "c02", "n": {"quick": 6000, "thorough": 120000}, "trivial": lambda case, ans: False},
             {"name": "c12", "n": {"quick": 20000, "thorough": 200000}, "trivial": lambda case, ans: False},
             {"name": "c13", "n": {"quick": 40000, "thorough": 40000}, "trivial": lambda case, ans: False},
@@ -126,7 +127,7 @@ CONFIG = {
         ],
         # every entry point runs under catch_unwind: a panic is a violation whether or not the model agrees
         "impl_judge": lambda case, ans: "the entry point panicked" if ans.startswith("(panic") else None,
-        "rule": "c07o: the 80 element-level receivers x elements with malformed attributes (name-value / bare / brace / bracket bodies, missing commas, stray punctuation, literals as names), unions, empty enums, mistakes at every level; c16m / c02 / c09: mistakes in element-level and FromMeta receivers; c12 / c13 / c11 / c14: every built-in conversion (567 wrapper compositions, 54 syntax types, 24 integer types incl. numbers beyond every width, maps) on every item form incl. malformed list bodies; c18recv: supports(..) receivers x every body shape incl. unions; every answer is also judged directly: `(panic` is a violation even when the model agrees; distinct by case text",
+        "rule": "c07o: the 80 element-level receivers x elements with malformed attributes (name-value / bare / brace / bracket bodies, missing commas, stray punctuation, literals as names), unions, empty enums, mistakes at every level; c07m: the 160 FromMeta receivers x inputs with 1..2 token-level mutations inside list bodies, preferably at depth >= 2 where generated code parses lazily (deleted commas, stray `=`, `;`, `#`, `=>`, literals as names); c16m / c02 / c09: mistakes in element-level and FromMeta receivers; c12 / c13 / c11 / c14: every built-in conversion (567 wrapper compositions, 54 syntax types, 24 integer types incl. numbers beyond every width, maps) on every item form incl. malformed list bodies; c18recv: supports(..) receivers x every body shape incl. unions; every answer is also judged directly: `(panic` is a violation even when the model agrees; distinct by case text",
         "assumptions": ["user-supplied functions (`with`, `map`, `and_then`, Default impls) and hand-written FromMeta impls are parameters assumed to return", "`Error::multiple(vec![])`, the accumulator's drop bomb and other documented panics of the public error API are C05's subject, not entry points of parsing"],
         "partial": "nesting depth is exercised to depth 3 by the streams; the theorems are depth-independent",
     },
